@@ -44,6 +44,8 @@ EVAL_PROFILES = [
     {"input": "SEMANTIC", "backend": None, "matcher": {"kind": "naive", "metric": "IOU", "thr": 0.3}, "metrics": ["DSC", "IOU", "RVD"], "global": ["DSC"]},
     {"input": "UNMATCHED_INSTANCE", "matcher": {"kind": "merge", "metric": "IOU", "thr": 0.3}, "metrics": ["DSC", "IOU", "RVD"], "global": ["DSC"]},
     {"input": "UNMATCHED_INSTANCE", "matcher": {"kind": "naive", "metric": "DSC", "thr": 0.3, "m2o": True}, "metrics": ["DSC", "IOU", "RVD"], "global": ["IOU"]},
+    {"input": "UNMATCHED_INSTANCE", "matcher": {"kind": "naive", "metric": "IOU", "thr": 0.3}, "metrics": ["ASSD", "IOU"], "global": []},
+    {"input": "UNMATCHED_INSTANCE", "matcher": {"kind": "merge", "metric": "DSC", "thr": 0.5}, "metrics": ["ASSD", "DSC", "RVD"], "global": ["IOU"]},
 ]
 PROFILE = {"cfg": CFG, "idx": None}
 
@@ -75,30 +77,43 @@ def setup(ctx):
 def subject_input(name):
     k = NAMES.index(name)
     if PROFILE["idx"] is not None:
-        # 2-D and 3-D inputs in turn, instances touching only at corners, fragments and unmatched predictions
-        shape = (6, 7) if k % 2 == 0 else (3, 5, 5)
+        if PROFILE["cfg"]["input"] == "SEMANTIC":
+            # 2-D and 3-D inputs in turn, components touching only at corners, fragments and unmatched predictions
+            shape = (6, 7) if k % 2 == 0 else (3, 5, 5)
+            refa = np.zeros(shape, dtype=np.uint8)
+            pred = np.zeros(shape, dtype=np.uint8)
+            if k % 2 == 0:
+                refa[0, 0] = refa[1, 1] = refa[2, 2] = 1
+                refa[4, 2:6] = 1
+                pred[0, 0] = pred[1, 1] = 1
+                pred[4, 2 : 4 + k // 2] = 1
+                pred[4, 5] = 1
+                pred[2, 5 - k // 2] = 1
+            else:
+                refa[0, 0, 0] = refa[1, 1, 1] = refa[2, 2, 2] = 1
+                refa[2, 0, 1:5] = 1
+                pred[0, 0, 0] = pred[1, 1, 1] = 1
+                pred[2, 0, 1 : 3 + k // 2] = 1
+                pred[2, 0, 4] = 1
+                pred[0, 4, k // 2] = 1
+            return pred, refa
+        # same shape and same reference for every subject, so instance crops have equal shapes; the prediction's
+        # labels are a different permutation per subject (overlapping label sets, different assignments), bars of
+        # subject-specific length and offset, a fragment for the merge matcher and an unmatched prediction
+        import itertools
+
+        perm = list(itertools.permutations((1, 2, 3)))[k]
+        shape = (8, 9) if PROFILE["idx"] % 2 else (2, 8, 9)
         refa = np.zeros(shape, dtype=np.uint8)
         pred = np.zeros(shape, dtype=np.uint8)
-        if k % 2 == 0:
-            refa[0, 0] = refa[1, 1] = refa[2, 2] = 1
-            refa[4, 2:6] = 1
-            pred[0, 0] = pred[1, 1] = 1
-            pred[4, 2 : 4 + k // 2] = 1
-            pred[4, 5] = 2
-            pred[2, 5 - k // 2] = 3
-        else:
-            refa[0, 0, 0] = refa[1, 1, 1] = refa[2, 2, 2] = 1
-            refa[2, 0, 1:5] = 1
-            pred[0, 0, 0] = pred[1, 1, 1] = 1
-            pred[2, 0, 1 : 3 + k // 2] = 1
-            pred[2, 0, 4] = 2
-            pred[0, 4, k // 2] = 3
-        if PROFILE["cfg"]["input"] == "SEMANTIC":
-            return (pred != 0).astype(np.uint8), (refa != 0).astype(np.uint8)
-        if k % 2 == 0:
-            refa[4, 2:6] = 2
-        else:
-            refa[2, 0, 1:5] = 2
+        rv, pv = (refa, pred) if len(shape) == 2 else (refa[1], pred[1])
+        for j in range(3):
+            rv[1 + 2 * j, 1:8] = j + 1
+            a = 1 + (k + j) % 3
+            b = a + 3 + (k + 2 * j) % 3
+            pv[1 + 2 * j, a:b] = perm[j]
+        pv[1 + 2 * (k % 3), 7] = 4  # fragment of one reference bar, own label
+        pv[7, 2 + k] = 5  # touches no reference
         return pred, refa
     refa = np.zeros(16, dtype=np.uint8)
     pred = np.zeros(16, dtype=np.uint8)
@@ -619,11 +634,12 @@ def run(case, ctx):
             sched.disable_line_points()
     elif fam == "lines_eval":
         # threads interleaved at line level inside the shared evaluator's own code as well
-        import panoptica._functionals as m1, panoptica.instance_matcher as m2, panoptica.instance_approximator as m3
-        import panoptica.instance_evaluator as m4, panoptica.panoptica_evaluator as m5, panoptica.utils.instancelabelmap as m6
-        import panoptica.metrics.metrics as m7, panoptica.utils.processing_pair as m8, panoptica.utils.edge_case_handling as m9
+        import glob as _glob
+        import panoptica as _p
 
-        if not sched.enable_line_points([m.__file__ for m in (m1, m2, m3, m4, m5, m6, m7, m8, m9)]):
+        root = os.path.dirname(_p.__file__)
+        files = [f for f in _glob.glob(os.path.join(root, "**", "*.py"), recursive=True)]
+        if not sched.enable_line_points(files):
             ctx.count("C16.line_points_unavailable")
             return
         PROFILE["idx"] = i % len(EVAL_PROFILES)
